@@ -268,6 +268,104 @@ func RunC17(r *core.Run) {
 			w.Sample("wrappers", map[string]any{"input": core.Esc(buf), "flags_passed": uint(base), "uri_headers": hdrs})
 		}
 	})
+	// wrappers filled by several calls: k lists in one buffer (each ended by ','), one call per list
+	r.Stage("wrappers-filled-by-several-calls", r.Pick(100000, 3000000), func(w *core.Worker, idx int64) {
+		rr := core.NewRand(r.Seed, 0xC17, 5, uint64(idx))
+		hdrs := rr.Bool()
+		flags := sipsp.POptTokCommaTermF
+		eff := flags | sipsp.POptParamSemiSepF
+		if hdrs {
+			eff = flags | sipsp.POptParamAmpSepF | sipsp.POptTokURIHdrF
+		}
+		k := rr.Range(2, 4)
+		var buf []byte
+		var starts []int
+		var items []gen.PLItem
+		var ends []int
+		for i := 0; i < k; i++ {
+			o := gen.PLOpts{Flags: eff, Term: gen.TermChar, MaxItems: 4}
+			if i == k-1 {
+				o.Term = gen.TermEOH
+			}
+			pl := gen.ParamList(rr, o)
+			base := len(buf)
+			starts = append(starts, base)
+			raw := pl.Raw
+			if o.Term == gen.TermChar {
+				raw = pl.Raw[:pl.TermOffs+1]
+			}
+			buf = append(buf, raw...)
+			for _, it := range pl.Items {
+				it.NameSp.S += base
+				it.NameSp.E += base
+				it.ValSp.S += base
+				it.ValSp.E += base
+				items = append(items, it)
+			}
+			ends = append(ends, base+pl.TermOffs)
+		}
+		pc := rr.Intn(len(items) + 2)
+		var ob Obj
+		var N func() (int, sipsp.URIParamF)
+		var get func(i int) (*sipsp.PTokParam, sipsp.URIParamF)
+		if hdrs {
+			x := &uriHdrsObj{flags: flags}
+			x.l.Init(make([]sipsp.URIHdr, pc))
+			ob = x
+			N = func() (int, sipsp.URIParamF) { return x.l.N, 0 }
+			get = func(i int) (*sipsp.PTokParam, sipsp.URIParamF) { return (*sipsp.PTokParam)(&x.l.Hdrs[i]), 0 }
+		} else {
+			x := &uriParamsObj{flags: flags}
+			x.l.Init(make([]sipsp.URIParam, pc))
+			ob = x
+			N = func() (int, sipsp.URIParamF) { return x.l.N, x.l.Types }
+			get = func(i int) (*sipsp.PTokParam, sipsp.URIParamF) { return &x.l.Params[i].Param, x.l.Params[i].T }
+		}
+		fail := func(what string) {
+			bc := append([]byte(nil), buf...)
+			w.Fail("several-calls", func() *core.Violation {
+				return core.V(fmt.Sprintf("%d lists parsed by %d consecutive calls into one list (capacity %d, uri headers: %v): %s", k, k, pc, hdrs, what), bc, map[string]any{"call_offsets": starts})
+			})
+		}
+		for i := 0; i < k; i++ {
+			n, e, pan, _ := safeCall(ob, buf, starts[i])
+			w.Eval(1)
+			if pan != "" {
+				fail("panic " + pan)
+				return
+			}
+			wantE, wantN := sipsp.ErrHdrOk, ends[i]
+			if i == k-1 {
+				wantE = sipsp.ErrHdrEOH
+			}
+			if e != wantE || n != wantN {
+				fail(fmt.Sprintf("call %d returned (%d, %s), expected (%d, %s)", i, n, errName(e), wantN, errName(wantE)))
+				return
+			}
+		}
+		gotN, gotT := N()
+		var wantT sipsp.URIParamF
+		for i := range items {
+			wantT |= refURIParamType(items[i].Name)
+		}
+		if gotN != len(items) || (!hdrs && gotT != wantT) {
+			fail(fmt.Sprintf("N=%d Types=%#x, the lists hold %d items with types %#x", gotN, gotT, len(items), wantT))
+			return
+		}
+		for i := 0; i < len(items) && i < pc; i++ {
+			p, t := get(i)
+			if m := cmpItem(p, &items[i], buf); m != "" {
+				fail(fmt.Sprintf("item %d: %s", i, m))
+				return
+			}
+			if !hdrs && t != refURIParamType(items[i].Name) {
+				fail(fmt.Sprintf("item %d (%q) classified %#x", i, items[i].Name, t))
+				return
+			}
+		}
+		w.Inc("lists_compared")
+		w.Nontrivial(core.HashBytes(buf) ^ uint64(pc)<<50)
+	})
 	// character classes
 	modes := []sipsp.POptFlags{0, sipsp.POptTokURIParamF, sipsp.POptTokURIHdrF, sipsp.POptTokCommaTermF, sipsp.POptParamAmpSepF | sipsp.POptTokQmTermF, sipsp.POptTokSpTermF}
 	st := r.Stage("character-classes", int64(256*4*len(modes)), func(w *core.Worker, idx int64) {
@@ -354,7 +452,7 @@ func RunC17(r *core.Run) {
 					via = append(via, (";" + []string{"", " "}[rr.Intn(2)] + gen.RandCase(rr, "branch") + []string{"=", " = "}[rr.Intn(2)] + brVal)...)
 				}
 			} else if i < np {
-				via = append(via, (";" + []string{"rport", "received=1.2.3.4", "ttl=5", "x=\"q;branch=no\"", "maddr=h", "branchx=1", "bran=2"}[rr.Intn(7)])...)
+				via = append(via, (";" + []string{"rport", "received=1.2.3.4", "ttl=5", "x=\"q;branch=no\"", "maddr=h", "branchx=1", "bran=2", "y=\"a\\\"b,c\"", "z=\"\\\\\"", "q=\"a, b\""}[rr.Intn(10)])...)
 			}
 		}
 		if rr.Intn(4) == 0 && (np > 0 || brAt >= 0) {
